@@ -64,7 +64,29 @@ TrHier == /\ HasEvent("Hier") /\ UNCHANGED vars
                    single_linkage_not_components |-> ~E.raised /\ E.single /\ Len(E.flat) = m /\
                         \E i, j \in 1..m : (E.flat[i] = E.flat[j]) # (j \in comp(i)) ]))
 
-TraceNext == TrSilent \/ TrGraph \/ TrHier
+\* Large inputs (beyond any blocking / size threshold of the implementation): the collection is Sessions[s].seqs[idx[i]] for
+\* i = 1..Len(idx), i.e. many copies of a few distinct rows; the partition of the copies is the partition of the distinct rows
+\* lifted through idx (copies are at distance 0 <= t).  uvec = condensed distances of the DISTINCT rows, which the harness lifts
+\* to the full condensed vector it hands to SciPy for the linkage comparison.
+TrHierBig == /\ HasEvent("HierBig") /\ UNCHANGED vars
+             /\ \E sv \in { SpecVec(Sessions[s].seqs) } :
+                  LET m == Len(Sessions[s].seqs)
+                      big == Len(E.idx)
+                      pos(i, j) == m * (i - 1) + (j - 1) - (((i - 1) + 2) * ((i - 1) + 1)) \div 2 + 1
+                      G == { p \in Pairs(m) : sv[pos(p[1], p[2])] <= E.t }
+                      nbr(i) == { j \in 1..m : <<i, j>> \in G \/ <<j, i>> \in G }
+                      comp(i) == FoldLeft(LAMBDA S, k : S \cup UNION { nbr(j) : j \in S }, {i}, [k \in 1..m |-> k])
+                      labelsOf(u) == { E.flat[i] : i \in { i \in 1..big : E.idx[i] = u } }
+                  IN Consume(Named([
+                       raised |-> E.raised,
+                       harness_vector_differs_from_spec |-> E.uvec # sv,
+                       one_label_per_input |-> ~E.raised /\ Len(E.flat) # big,
+                       single_linkage_not_components |-> ~E.raised /\ E.single /\ Len(E.flat) = big /\
+                            \E lab \in { [u \in 1..m |-> labelsOf(u)] } :
+                               \/ \E u \in 1..m : Cardinality(lab[u]) # 1
+                               \/ \E u, v \in 1..m : (lab[u] = lab[v]) # (v \in comp(u)) ]))
+
+TraceNext == TrSilent \/ TrGraph \/ TrHier \/ TrHierBig
 TraceSpec == TraceInit /\ [][TraceNext]_<<vars, xvars>>
 SessionDone == l > Len(Events)
 EmitVerdict == SessionDone => PrintT(ToJson([sid |-> Sessions[s].sid, n |-> Len(Events), verdict |-> verdict]))
